@@ -59,61 +59,73 @@ func TestVerif_C20_camel_roundtrip(t *testing.T) {
 	})
 	kit.Run(t, "C20", "camel-roundtrip", kit.Opts{Quick: 10000, Thorough: 1600000},
 		func(rt *rapid.T) c20Snake { return c20Snake{W: rapid.SliceOfN(word, 1, 7).Draw(rt, "words")} },
-		func(c c20Snake) (v kit.Verdict) {
-			for _, w := range c.W { // replay files are data: re-check the precondition
-				if w == "" || strings.Trim(w, "abcdefghijklmnopqrstuvwxyz") != "" {
-					v.Excluded = true
-					return v
-				}
-			}
-			s := strings.Join(c.W, "_")
-			upperCamel, lowerCamel := "", ""
-			single := false
-			for i, w := range c.W {
-				upperCamel += c20Capital(w)
-				if i == 0 {
-					lowerCamel += w
-				} else {
-					lowerCamel += c20Capital(w)
-				}
-				if len(w) == 1 {
-					single = true
-				}
-			}
-			switch n := len(c.W); {
-			case n == 1:
-				v.Classes = append(v.Classes, "words=1")
-			case n == 2:
-				v.Classes = append(v.Classes, "words=2")
-			default:
-				v.Classes = append(v.Classes, "words>=3")
-			}
-			if single {
-				v.Classes = append(v.Classes, "single-letter-word")
-			}
-			v.NonTrivial = len(c.W) >= 2
+		func(c c20Snake) kit.Verdict { return c20RoundTrip(c.W) })
+}
 
-			camel, p := c20Guard(func() string { return From(s).ToCamel() })
-			if p != "" {
-				return v.Failf("From(%q).ToCamel() panicked: %s", s, p)
-			}
-			if camel != upperCamel && camel != lowerCamel {
-				return v.Failf("From(%q).ToCamel() = %q, want %q (or %q)", s, camel, upperCamel, lowerCamel)
-			}
-			back, p := c20Guard(func() string { return From(camel).ToSnake() })
-			if p != "" {
-				return v.Failf("From(%q).ToSnake() panicked: %s", camel, p)
-			}
-			if back != s {
-				return v.Failf("ToSnake(ToCamel(%q)) = ToSnake(%q) = %q, want %q", s, camel, back, s)
-			}
-			camel2, _ := c20Guard(func() string { return From(s).ToCamel() })
-			back2, _ := c20Guard(func() string { return From(camel).ToSnake() })
-			if camel2 != camel || back2 != back {
-				return v.Failf("conversion of %q not deterministic: %q/%q then %q/%q", s, camel, back, camel2, back2)
-			}
+// c20RoundTrip: the round-trip oracle for an identifier given as its words.
+func c20RoundTrip(ws []string) (v kit.Verdict) {
+	for _, w := range ws { // replay files are data: re-check the precondition
+		if w == "" || strings.Trim(w, "abcdefghijklmnopqrstuvwxyz") != "" {
+			v.Excluded = true
 			return v
-		})
+		}
+	}
+	s := strings.Join(ws, "_")
+	var ub, lb strings.Builder
+	single := false
+	for i, w := range ws {
+		ub.WriteString(c20Capital(w))
+		if i == 0 {
+			lb.WriteString(w)
+		} else {
+			lb.WriteString(c20Capital(w))
+		}
+		if len(w) == 1 {
+			single = true
+		}
+	}
+	upperCamel, lowerCamel := ub.String(), lb.String()
+	switch n := len(ws); {
+	case n == 1:
+		v.Classes = append(v.Classes, "words=1")
+	case n == 2:
+		v.Classes = append(v.Classes, "words=2")
+	default:
+		v.Classes = append(v.Classes, "words>=3")
+	}
+	if single {
+		v.Classes = append(v.Classes, "single-letter-word")
+	}
+	v.NonTrivial = len(ws) >= 2
+
+	camel, p := c20Guard(func() string { return From(s).ToCamel() })
+	if p != "" {
+		return v.Failf("From(%s).ToCamel() panicked: %s", c20Short(s), p)
+	}
+	if camel != upperCamel && camel != lowerCamel {
+		return v.Failf("From(%s).ToCamel() = %s, want %s (or %s)", c20Short(s), c20Short(camel), c20Short(upperCamel), c20Short(lowerCamel))
+	}
+	back, p := c20Guard(func() string { return From(camel).ToSnake() })
+	if p != "" {
+		return v.Failf("From(%s).ToSnake() panicked: %s", c20Short(camel), p)
+	}
+	if back != s {
+		return v.Failf("ToSnake(ToCamel(%s)) = ToSnake(%s) = %s, want the identifier back", c20Short(s), c20Short(camel), c20Short(back))
+	}
+	camel2, _ := c20Guard(func() string { return From(s).ToCamel() })
+	back2, _ := c20Guard(func() string { return From(camel).ToSnake() })
+	if camel2 != camel || back2 != back {
+		return v.Failf("conversion of %s not deterministic: %s/%s then %s/%s", c20Short(s), c20Short(camel), c20Short(back), c20Short(camel2), c20Short(back2))
+	}
+	return v
+}
+
+// c20Short quotes s, abbreviating the middle of long strings.
+func c20Short(s string) string {
+	if len(s) <= 160 {
+		return strconv.Quote(s)
+	}
+	return fmt.Sprintf("%s...(%d bytes)...%s", strconv.Quote(s[:60]), len(s), strconv.Quote(s[len(s)-40:]))
 }
 
 // stringx-total: the conversions neither panic nor depend on anything but the
@@ -132,57 +144,59 @@ func TestVerif_C20_stringx_total(t *testing.T) {
 		func(rt *rapid.T) c20Any {
 			return c20Any{S: c20Q(strings.Join(rapid.SliceOfN(piece, 1, 6).Draw(rt, "pieces"), ""))}
 		},
-		func(c c20Any) (v kit.Verdict) {
-			s := c20U(c.S)
-			ascii := true
-			for i := 0; i < len(s); i++ {
-				if s[i] >= utf8.RuneSelf {
-					ascii = false
-				}
+		func(c c20Any) kit.Verdict { return c20Total(c20U(c.S)) })
+}
+
+// c20Total: totality / determinism oracle for one receiver string.
+func c20Total(s string) (v kit.Verdict) {
+	ascii := true
+	for i := 0; i < len(s); i++ {
+		if s[i] >= utf8.RuneSelf {
+			ascii = false
+		}
+	}
+	switch {
+	case s == "":
+		v.Classes = append(v.Classes, "empty")
+	case !utf8.ValidString(s):
+		v.Classes = append(v.Classes, "invalid-utf8")
+	case !ascii:
+		v.Classes = append(v.Classes, "unicode")
+	default:
+		v.Classes = append(v.Classes, "ascii")
+	}
+	if strings.TrimSpace(s) == "" && s != "" {
+		v.Classes = append(v.Classes, "blank")
+	}
+	v.NonTrivial = strings.Trim(s, "abcdefghijklmnopqrstuvwxyz_") != ""
+	fns := []struct {
+		name string
+		f    func(String) string
+	}{
+		{"ToCamel", String.ToCamel}, {"ToSnake", String.ToSnake},
+		{"Title", String.Title}, {"UnTitle", String.UnTitle},
+		{"ToLower", String.ToLower}, {"ToUpper", String.ToUpper},
+	}
+	var first [6]string
+	for round := 0; round < 2; round++ {
+		for i, fn := range fns {
+			out, p := c20Guard(func() string { return fn.f(From(s)) })
+			if p != "" {
+				return v.Failf("From(%s).%s() panicked: %s", c20Short(s), fn.name, p)
 			}
-			switch {
-			case s == "":
-				v.Classes = append(v.Classes, "empty")
-			case !utf8.ValidString(s):
-				v.Classes = append(v.Classes, "invalid-utf8")
-			case !ascii:
-				v.Classes = append(v.Classes, "unicode")
-			default:
-				v.Classes = append(v.Classes, "ascii")
+			if round == 0 {
+				first[i] = out
+			} else if out != first[i] {
+				return v.Failf("From(%s).%s() not deterministic: %s then %s", c20Short(s), fn.name, c20Short(first[i]), c20Short(out))
 			}
-			if strings.TrimSpace(s) == "" && s != "" {
-				v.Classes = append(v.Classes, "blank")
-			}
-			v.NonTrivial = strings.Trim(s, "abcdefghijklmnopqrstuvwxyz_") != ""
-			fns := []struct {
-				name string
-				f    func(String) string
-			}{
-				{"ToCamel", String.ToCamel}, {"ToSnake", String.ToSnake},
-				{"Title", String.Title}, {"UnTitle", String.UnTitle},
-				{"ToLower", String.ToLower}, {"ToUpper", String.ToUpper},
-			}
-			var first [6]string
-			for round := 0; round < 2; round++ {
-				for i, fn := range fns {
-					out, p := c20Guard(func() string { return fn.f(From(s)) })
-					if p != "" {
-						return v.Failf("From(%q).%s() panicked: %s", s, fn.name, p)
-					}
-					if round == 0 {
-						first[i] = out
-					} else if out != first[i] {
-						return v.Failf("From(%q).%s() not deterministic: %q then %q", s, fn.name, first[i], out)
-					}
-				}
-			}
-			// chained, as the generator uses them
-			if _, p := c20Guard(func() string { return From(From(s).ToCamel()).ToSnake() }); p != "" {
-				return v.Failf("ToSnake(ToCamel(%q)) panicked: %s", s, p)
-			}
-			if _, p := c20Guard(func() string { return From(From(s).ToSnake()).ToCamel() }); p != "" {
-				return v.Failf("ToCamel(ToSnake(%q)) panicked: %s", s, p)
-			}
-			return v
-		})
+		}
+	}
+	// chained, as the generator uses them
+	if _, p := c20Guard(func() string { return From(From(s).ToCamel()).ToSnake() }); p != "" {
+		return v.Failf("ToSnake(ToCamel(%s)) panicked: %s", c20Short(s), p)
+	}
+	if _, p := c20Guard(func() string { return From(From(s).ToSnake()).ToCamel() }); p != "" {
+		return v.Failf("ToCamel(ToSnake(%s)) panicked: %s", c20Short(s), p)
+	}
+	return v
 }
